@@ -2,6 +2,7 @@
 #![allow(dead_code)]
 use crate::attr::*;
 use crate::core::*;
+use crate::ops::Out;
 use rspack_sources::*;
 use serde_json::json;
 use std::cell::Cell;
@@ -11,8 +12,10 @@ use std::sync::{Arc, Condvar, Mutex};
 use std::time::{Duration, Instant};
 
 #[derive(Clone, Copy, Debug, PartialEq, Eq, Hash)]
-pub enum COp { Sorted, Clone, CMap, CStream, Once, CStreamKeep }
-impl COp { fn tok(&self) -> &'static str { match self { COp::Sorted => "s", COp::Clone => "c", COp::CMap => "m", COp::CStream | COp::CStreamKeep => "t", COp::Once => "o" } } }
+pub enum COp { Sorted, Clone, CMap, CStream, Once, CStreamKeep, CMapL, CStreamL }
+impl COp { fn tok(&self) -> &'static str { match self { COp::Sorted => "s", COp::Clone => "c", COp::CMap => "m", COp::CStream | COp::CStreamKeep => "t", COp::Once => "o", COp::CMapL => "n", COp::CStreamL => "u" } }
+  /// the abstract protocol model (`Model/Conc.lean`) has one cache key
+  fn one_key(&self) -> bool { !matches!(self, COp::CMapL | COp::CStreamL) } }
 
 #[derive(Clone, Copy, PartialEq, Eq, Debug)]
 enum St { NotStarted, AtPoint, Running, Done }
@@ -50,6 +53,16 @@ impl Ctl {
 #[derive(Clone, Debug)]
 pub struct Config { pub progs: Vec<Vec<COp>>, pub nrepl: usize, pub cached_sms: bool }
 
+/// the two shared objects as protocol trees (what `shared_objects` builds, for the value-carrying model `Model/ConcV.lean`)
+fn shared_trees(cfg: &Config) -> (T, T) {
+  let repls = (0..cfg.nrepl).map(|k| ReplT { start: (7 - 2 * k) as u32, end: (8 - 2 * k) as u32, content: format!("<{k}>"), name: None, enforce: 1 }).collect();
+  let r = T::Replace(Box::new(T::Raw("abc\ndef;ghi\n".into())), repls);
+  let inner = if cfg.cached_sms {
+    T::Sms { text: "ab;cd\nef".into(), name: "x.js".into(), map: SMapT { mappings: "AAAA,GAAG;AACA".into(), sources: vec!["o.js".into()], contents: vec!["ab;cd\nef".into()], names: vec![], file: None, root: None, debug_id: None }, orig: None, inner: None, remove: false }
+  } else { T::Concat(vec![(false, T::Orig("ab;cd\nef".into(), "o.js".into())), (false, T::Raw("tail".into()))]) };
+  (r, T::Cached(0, Box::new(inner)))
+}
+
 fn shared_objects(cfg: &Config) -> (ReplaceSource<BoxSource>, CachedSource<BoxSource>) {
   let mut r = ReplaceSource::new(RawSource::from("abc\ndef;ghi\n").boxed());
   for k in 0..cfg.nrepl { r.replace((7 - 2 * k) as u32, (8 - 2 * k) as u32, &format!("<{k}>"), None); }
@@ -60,25 +73,40 @@ fn shared_objects(cfg: &Config) -> (ReplaceSource<BoxSource>, CachedSource<BoxSo
 }
 
 /// canonical answer of one operation (compared with the single-threaded answer)
-fn do_op(op: COp, r: &ReplaceSource<BoxSource>, c: &CachedSource<BoxSource>) -> String {
+fn do_op(op: COp, r: &ReplaceSource<BoxSource>, c: &CachedSource<BoxSource>) -> String { do_op_v(op, r, c).0 }
+/// … and the value itself (compared with what the value-carrying model predicts for the observed schedule)
+fn do_op_v(op: COp, r: &ReplaceSource<BoxSource>, c: &CachedSource<BoxSource>) -> (String, Option<Out>) {
   match op {
-    COp::Sorted => hx(r.source().as_bytes()),
-    COp::Clone => { let cl = r.clone(); PRIVATE.with(|p| p.set(true)); let s = hx(cl.source().as_bytes()); PRIVATE.with(|p| p.set(false)); s }
+    COp::Sorted => { let t = r.source().as_bytes().to_vec(); (hx(&t), Some(Out::Text(t))) }
+    COp::Clone => { let cl = r.clone(); PRIVATE.with(|p| p.set(true)); let t = cl.source().as_bytes().to_vec(); PRIVATE.with(|p| p.set(false)); (hx(&t), Some(Out::Text(t))) }
     COp::CMap => { let m = c.map(&MapOptions::new(true));
       if TID.with(|t| t.get()).is_some() { if let Some(m) = &m { MAP_PTRS.lock().unwrap_or_else(|e| e.into_inner()).push(m.mappings().as_ptr() as usize); } }
-      let src = c.source().as_bytes().to_vec(); format!("{:?}", m.map(|m| attr_map(&SMapT::of(&m), &src).iter().map(|a| show_attr(&no_content(a))).collect::<Vec<_>>())) }
-    COp::CStream => { let st = run_stream(c, true, false); format!("{}:{} {:?}", st.line, st.col, attr_stream(&st).iter().map(|a| show_attr(&no_content(a))).collect::<Vec<_>>()) }
+      let src = c.source().as_bytes().to_vec(); let v = Out::Map(m.as_ref().map(SMapT::of));
+      (format!("{:?}", m.map(|m| attr_map(&SMapT::of(&m), &src).iter().map(|a| show_attr(&no_content(a))).collect::<Vec<_>>())), Some(v)) }
+    COp::CMapL => { let m = c.map(&MapOptions::new(false)); let v = Out::Map(m.as_ref().map(SMapT::of)); (format!("{:?}", m.map(|m| attr_map_lines(&SMapT::of(&m)))), Some(v)) }
+    COp::CStream => { let st = run_stream(c, true, false); (format!("{}:{} {:?}", st.line, st.col, attr_stream(&st).iter().map(|a| show_attr(&no_content(a))).collect::<Vec<_>>()), Some(Out::Stream(st))) }
+    COp::CStreamL => { let st = run_stream(c, false, false); (format!("{}:{} {:?}", st.line, st.col, attr_stream_lines(&st)), Some(Out::Stream(st))) }
     // streaming with callbacks that are schedule points themselves and that keep what they borrow (C19)
     COp::CStreamKeep => {
       let (st, bad) = run_stream_keep_checked(c, true, false, &|| hook("cb.chunk"));
       let a = format!("{}:{} {:?}", st.line, st.col, attr_stream(&st).iter().map(|a| show_attr(&no_content(a))).collect::<Vec<_>>());
-      match bad { Some(b) => format!("KEPT-BORROW-CHANGED {b} // {a}"), None => a }
+      match bad { Some(b) => (format!("KEPT-BORROW-CHANGED {b} // {a}"), Some(Out::Stream(st))), None => (a, Some(Out::Stream(st))) }
     }
-    COp::Once => { let mut h = std::collections::hash_map::DefaultHasher::new(); { use std::hash::Hash; c.hash(&mut h); } h.finish().to_string() }
+    COp::Once => { let mut h = std::collections::hash_map::DefaultHasher::new(); { use std::hash::Hash; c.hash(&mut h); } (h.finish().to_string(), None) }
+  }
+}
+/// what of a value the comparison with the model looks at: texts exactly; streams by end position and per-byte (per-line) attribution;
+/// maps by decoded segments and tables (not by spelling)
+fn proj_v(op: COp, o: &Out) -> String {
+  match o {
+    Out::Text(b) => format!("text {}", hx(b)),
+    Out::Stream(st) => if op == COp::CStreamL { format!("stream {}:{} {:?}", st.line, st.col, attr_stream_lines(st)) } else { format!("stream {}:{} {:?}", st.line, st.col, attr_stream(st).iter().map(show_attr).collect::<Vec<_>>()) },
+    Out::Map(m) => format!("map {:?}", m.as_ref().map(|m| (decode(&m.mappings), m.sources.clone(), m.contents.clone(), m.names.clone()))),
+    x => format!("{:?}", x),
   }
 }
 
-pub struct RunOut { pub map_ptrs: Vec<usize>, pub answers: Vec<Vec<String>>, pub log: Vec<(usize, &'static str)>, pub deadlock: bool, pub timeouts: u64, pub violations: Vec<&'static str>, pub panics: Vec<String> }
+pub struct RunOut { pub map_ptrs: Vec<usize>, pub values: Vec<Vec<Option<Out>>>, pub answers: Vec<Vec<String>>, pub log: Vec<(usize, &'static str)>, pub deadlock: bool, pub timeouts: u64, pub violations: Vec<&'static str>, pub panics: Vec<String> }
 
 /// run `cfg` with real threads following `schedule` (thread ids), then let everything finish
 pub fn run_scheduled(cfg: &Config, schedule: &[usize]) -> RunOut {
@@ -95,7 +123,7 @@ pub fn run_scheduled(cfg: &Config, schedule: &[usize]) -> RunOut {
     handles.push(std::thread::spawn(move || {
       TID.with(|t| t.set(Some(tid)));
       let mut out = vec![];
-      for op in prog { out.push(match catch(|| do_op(op, &r, &c)) { Ok(s) => s, Err(m) => format!("panic {m}") }); }
+      for op in prog { out.push(match catch(|| do_op_v(op, &r, &c)) { Ok(s) => s, Err(m) => (format!("panic {m}"), None) }); }
       TID.with(|t| t.set(None));
       ctl.done(tid);
       out
@@ -131,17 +159,17 @@ pub fn run_scheduled(cfg: &Config, schedule: &[usize]) -> RunOut {
     if t2.elapsed() > Duration::from_secs(5) { deadlock = true; break }
     std::thread::sleep(Duration::from_millis(1));
   }
-  let mut answers = vec![]; let mut panics = vec![];
-  if deadlock { answers = vec![vec!["deadlock".to_string()]; n]; std::mem::forget(handles); }
-  else { for h in handles { match h.join() { Ok(v) => answers.push(v), Err(_) => { answers.push(vec!["panic".into()]); panics.push("thread panicked".into()); } } } }
+  let mut answers = vec![]; let mut values = vec![]; let mut panics = vec![];
+  if deadlock { answers = vec![vec!["deadlock".to_string()]; n]; values = vec![vec![]; n]; std::mem::forget(handles); }
+  else { for h in handles { match h.join() { Ok(v) => { answers.push(v.iter().map(|x| x.0.clone()).collect()); values.push(v.into_iter().map(|x| x.1).collect()); } Err(_) => { answers.push(vec!["panic".into()]); values.push(vec![]); panics.push("thread panicked".into()); } } } }
   let log = ctl.st.lock().unwrap_or_else(|e| e.into_inner()).log.clone();
   *CTL.lock().unwrap_or_else(|e| e.into_inner()) = None;
-  RunOut { map_ptrs: std::mem::take(&mut *MAP_PTRS.lock().unwrap_or_else(|e| e.into_inner())), answers, log, deadlock, timeouts, violations: verif::take_unsafe_violations(), panics }
+  RunOut { map_ptrs: std::mem::take(&mut *MAP_PTRS.lock().unwrap_or_else(|e| e.into_inner())), values, answers, log, deadlock, timeouts, violations: verif::take_unsafe_violations(), panics }
 }
 
 pub fn sequential_answers(cfg: &Config) -> BTreeMap<COp, String> {
   let mut m = BTreeMap::new();
-  for op in [COp::Sorted, COp::Clone, COp::CMap, COp::CStream, COp::Once] { let (r, c) = shared_objects(cfg); m.insert(op, do_op(op, &r, &c)); }
+  for op in [COp::Sorted, COp::Clone, COp::CMap, COp::CStream, COp::Once, COp::CMapL, COp::CStreamL] { let (r, c) = shared_objects(cfg); m.insert(op, do_op(op, &r, &c)); }
   let t = m[&COp::CStream].clone(); m.insert(COp::CStreamKeep, t);
   m
 }
@@ -153,10 +181,10 @@ fn model_schedule(log: &[(usize, &'static str)]) -> Vec<usize> { log.iter().filt
 
 pub fn gen_config(rng: &mut Rng) -> Config {
   let n = 2 + rng.below(2);
-  let ops = [COp::Sorted, COp::Clone, COp::CMap, COp::CStream, COp::Once, COp::CStreamKeep];
+  let ops = [COp::Sorted, COp::Clone, COp::CMap, COp::CStream, COp::Once, COp::CStreamKeep, COp::CMapL, COp::CStreamL];
   // mostly ops on one of the two shared objects so that threads collide
-  let family = rng.below(4);
-  let progs = (0..n).map(|_| (0..1 + rng.below(3)).map(|_| match family { 0 => ops[rng.below(2)], 1 => ops[2 + rng.below(4)], 2 => [COp::CStream, COp::CStreamKeep, COp::CStreamKeep, COp::CMap][rng.below(4)], _ => ops[rng.below(6)] }).collect()).collect();
+  let family = rng.below(5);
+  let progs = (0..n).map(|_| (0..1 + rng.below(3)).map(|_| match family { 0 => ops[rng.below(2)], 1 => ops[2 + rng.below(4)], 2 => [COp::CStream, COp::CStreamKeep, COp::CStreamKeep, COp::CMap][rng.below(4)], 3 => [COp::CMap, COp::CStream, COp::CMapL, COp::CStreamL][rng.below(4)], _ => ops[rng.below(8)] }).collect()).collect();
   Config { progs, nrepl: 1 + rng.below(3), cached_sms: rng.chance(2) }
 }
 
@@ -165,7 +193,7 @@ pub fn run(seed: u64, nsched: u64, driver: &str, thorough: bool, prop: &str) -> 
   let mut rng = Rng::new(seed);
   let mut d = Driver::spawn(driver);
   let mut failures: Vec<serde_json::Value> = vec![];
-  let (mut runs, mut validated, mut timeouts, mut switches_in_window) = (0u64, 0u64, 0u64, 0u64);
+  let (mut runs, mut validated, mut timeouts, mut switches_in_window, mut values_compared) = (0u64, 0u64, 0u64, 0u64, 0u64);
   let mut dist: BTreeMap<String, u64> = BTreeMap::new();
   let mut samples = vec![]; let mut distinct = std::collections::HashSet::new();
   let mut configs: Vec<Config> = vec![
@@ -175,6 +203,8 @@ pub fn run(seed: u64, nsched: u64, driver: &str, thorough: bool, prop: &str) -> 
     // a cold stream parked in its callbacks while another thread fills the cache and replays from it
     Config { progs: vec![vec![COp::CStreamKeep], vec![COp::CStream, COp::CStreamKeep]], nrepl: 1, cached_sms: true },
     Config { progs: vec![vec![COp::CStreamKeep, COp::CStreamKeep], vec![COp::CStreamKeep, COp::CMap]], nrepl: 1, cached_sms: false },
+    // both column settings on one cache: two entries, two entry locks
+    Config { progs: vec![vec![COp::CStreamL, COp::CMap], vec![COp::CStream, COp::CMapL]], nrepl: 1, cached_sms: false },
   ];
   let mut k = 0u64;
   while runs < nsched {
@@ -212,8 +242,41 @@ pub fn run(seed: u64, nsched: u64, driver: &str, thorough: bool, prop: &str) -> 
           if Some(a) != seq.get(op) { failures.push(json!({ "kind": "oracle", "clause": "sequential-answer", "detail": format!("thread {t} {:?}: got {} — single-threaded answer {}", op, trunc(a, 300), seq.get(op).map(|s| trunc(s, 300)).unwrap_or_default()), "known": null, "case": case })); }
         }
       }
-      // validate the trace against the model: replay the observed order of accesses
+      // the value-carrying model (Model/ConcV.lean) on the observed order of accesses: it must finish every call, and each call's
+      // value must be the one the crate returned
       let ms = model_schedule(&out.log);
+      {
+        let (tr, tc) = shared_trees(&cfg);
+        let mut req = format!("concv R C {}", cfg.progs.len());
+        for p in &cfg.progs { req.push_str(&format!(" {}", p.len())); for op in p { req.push(' '); req.push_str(op.tok()); } }
+        req.push_str(&format!(" {}", ms.len())); for t in &ms { req.push_str(&format!(" {t}")); }
+        let resp = d.ask(&["reset".to_string(), format!("tree R {}", tr.proto()), format!("tree C {}", tc.proto()), req]);
+        let r = resp.last().cloned().unwrap_or_default();
+        let mut parts = r.split(" # ");
+        let head = parts.next().unwrap_or("");
+        if !(head.starts_with("ok done 1 pending 0 locks - -")) {
+          failures.push(json!({ "kind": "corr", "clause": "trace-not-a-run-of-the-value-model", "detail": format!("the observed order of shared-state accesses is not a complete run of the value-carrying model: {head}"), "known": null, "case": case }));
+        } else {
+          let model_vals: Vec<&str> = parts.collect();
+          let ops_flat: Vec<COp> = cfg.progs.iter().flatten().copied().collect();
+          let impl_flat: Vec<&Option<Out>> = out.values.iter().flatten().collect();
+          if model_vals.len() != ops_flat.len() || impl_flat.len() != ops_flat.len() {
+            failures.push(json!({ "kind": "corr", "clause": "value-model-answer-count", "detail": format!("model returned {} answers, the crate {}, for {} calls", model_vals.len(), impl_flat.len(), ops_flat.len()), "known": null, "case": case }));
+          } else {
+            for (k, op) in ops_flat.iter().enumerate() {
+              let Some(iv) = impl_flat[k] else { continue };
+              let mv = model_vals[k];
+              let mo = if let Some(x) = mv.strip_prefix("text ") { crate::ops::parse_out(&crate::ops::Op::Src, x) } else if let Some(x) = mv.strip_prefix("stream ") { crate::ops::parse_out(&crate::ops::Op::Stream(true, false), x) } else if let Some(x) = mv.strip_prefix("map ") { crate::ops::parse_out(&crate::ops::Op::Map(true), x) } else { Out::Bad(mv.to_string()) };
+              values_compared += 1;
+              if proj_v(*op, &mo) != proj_v(*op, iv) {
+                failures.push(json!({ "kind": "corr", "clause": "concurrent-value-differs-from-model", "detail": format!("call {k} ({:?}): the crate returned {} — the model, on the observed schedule, {}", op, trunc(&proj_v(*op, iv), 300), trunc(&proj_v(*op, &mo), 300)), "known": null, "case": case }));
+              }
+            }
+          }
+        }
+      }
+      if !cfg.progs.iter().flatten().all(|o| o.one_key()) { validated += 1; continue }
+      // validate the trace against the model: replay the observed order of accesses
       let mut req = format!("conc {}", cfg.progs.len());
       for p in &cfg.progs { req.push_str(&format!(" {}", p.len())); for op in p { req.push(' '); req.push_str(op.tok()); } }
       req.push_str(&format!(" {}", ms.len())); for t in &ms { req.push_str(&format!(" {t}")); }
@@ -228,5 +291,5 @@ pub fn run(seed: u64, nsched: u64, driver: &str, thorough: bool, prop: &str) -> 
   json!({ "property": prop, "cases": runs, "distinct_nontrivial": distinct.len(), "samples": samples, "distribution": dist, "impl_panics": 0,
     "oracle_failures": failures.iter().filter(|f| f["kind"] == "oracle").count(), "unknown_oracle_failures": failures.iter().filter(|f| f["kind"] == "oracle").count(), "known_counts": {},
     "corr_failures": failures.iter().filter(|f| f["kind"] == "corr").count(), "model_oracle_failures": 0, "driver_lines": d.lines, "failures": failures,
-    "extra": { "traces_validated_against_impl": validated, "schedules_run": runs, "configs": configs.len(), "grants_that_blocked_on_a_real_lock": timeouts, "schedules_with_context_switch_in_window": switches_in_window } })
+    "extra": { "traces_validated_against_impl": validated, "values_compared_with_value_model": values_compared, "schedules_run": runs, "configs": configs.len(), "grants_that_blocked_on_a_real_lock": timeouts, "schedules_with_context_switch_in_window": switches_in_window } })
 }
